@@ -598,8 +598,15 @@ func runC15(c *Ctx) {
 				continue
 			}
 			pi := newPathIndex(path)
-			if pi.nilnessAt(ret.Results[0], len(pi.instrs)-1, false) != "nonnil" {
-				continue
+			if st := pi.nilnessAt(ret.Results[0], len(pi.instrs)-1, false); st != "nonnil" {
+				// the result of a verification / handler call returned as it is may be an error as well
+				direct := false
+				if call, ok := resolveCell(path.evalEnd(ret.Results[0])).(*ssa.Call); ok && st == "unknown" && isCallToFn(call, w.verifyFrame, w.handleControl, w.handleData) {
+					direct = true
+				}
+				if !direct {
+					continue
+				}
 			}
 			active := false
 			for _, l := range path.Lits {
@@ -619,6 +626,14 @@ func runC15(c *Ctx) {
 			n++
 			queued, left := false, false
 			for _, in := range pi.instrs {
+				// a helper that starts the closing handshake itself when (and only when) the stream is active
+				if call, ok := in.(*ssa.Call); ok {
+					if h := call.Call.StaticCallee(); isHelperOf(fn, h) && h != w.prepareClose {
+						if idx, ok := startsCloseWhenActive(w, h); ok && idx < len(call.Call.Args) && isConstInt(call.Call.Args[idx], protoErr) {
+							queued, left, active = true, true, true
+						}
+					}
+				}
 				if call, ok := in.(*ssa.Call); ok && isCallToFn(call, w.prepareClose) {
 					if pc, ok := strip(call.Call.Args[1]).(*ssa.Call); ok && isCallToFn(pc, w.encodeClosePayload, w.encodeCloseCode) && isConstInt(pc.Call.Args[0], protoErr) {
 						queued = true
@@ -932,4 +947,62 @@ func callsByName(fn *ssa.Function, name string) []ssa.CallInstruction {
 		}
 	})
 	return out
+}
+
+// startsCloseWhenActive: every path of h either observes state != StateActive and does nothing to the stream, or
+// observes state == StateActive, leaves that state and queues a close frame whose code is h's parameter idx.
+func startsCloseWhenActive(w *wsAnchors, h *ssa.Function) (int, bool) {
+	if h == nil || h.Blocks == nil {
+		return 0, false
+	}
+	paths, overflow := enumPaths(h)
+	if overflow || len(paths) == 0 {
+		return 0, false
+	}
+	idx, starts := -1, 0
+	for _, path := range paths {
+		if path.Panics {
+			continue
+		}
+		active, notActive := false, false
+		for _, l := range path.Lits {
+			if k, eq, ok := enumTest(l.Lit, w.state); ok && k == w.stActive {
+				if eq {
+					active = true
+				} else {
+					notActive = true
+				}
+			}
+		}
+		queued, left := false, false
+		for _, in := range path.Instrs() {
+			if call, ok := in.(*ssa.Call); ok && isCallToFn(call, w.prepareClose) {
+				if pc, ok := strip(call.Call.Args[1]).(*ssa.Call); ok && isCallToFn(pc, w.encodeClosePayload, w.encodeCloseCode) {
+					for i, q := range h.Params {
+						if stripConv(pc.Call.Args[0]) == ssa.Value(q) {
+							if idx >= 0 && idx != i {
+								return 0, false
+							}
+							idx, queued = i, true
+						}
+					}
+				}
+			}
+			if st, ok := in.(*ssa.Store); ok {
+				if fv, _ := fieldAddrOf(st.Addr); fv == w.state {
+					if k, ok := constInt(st.Val); ok && k != w.stActive {
+						left = true
+					}
+				}
+			}
+		}
+		switch {
+		case active && queued && left:
+			starts++
+		case notActive && !queued && !left:
+		default:
+			return 0, false
+		}
+	}
+	return idx, starts > 0 && idx >= 0
 }
